@@ -764,9 +764,13 @@ func cmdReplay(args []string) int {
 			fatal("%v", err)
 		}
 	}
+	reproducedKnown := false
 	for _, v := range res.Violations {
 		if k := matchKnown(known, rf.Property, v); k != nil {
 			fmt.Printf("KNOWN-FINDING: property=%s %s %s\n", rf.Property, k.ID, v.Detail)
+			if v.Class == rf.Class {
+				reproducedKnown = true
+			}
 			continue
 		}
 		if v.Class == rf.Class || rf.Class == "" {
@@ -778,6 +782,10 @@ func cmdReplay(args []string) int {
 			return 1
 		}
 		fmt.Printf("simcheck: other violation class in replay: %s: %s\n", v.Class, clip(v.Detail, 400))
+	}
+	if reproducedKnown {
+		fmt.Printf("simcheck: replay of %s reproduced class %q, which is a listed known finding (steps=%d)\n", args[0], rf.Class, res.Steps)
+		return 0
 	}
 	fmt.Printf("simcheck: replay of %s did not reproduce class %q (steps=%d)\n", args[0], rf.Class, res.Steps)
 	return 0
